@@ -31,6 +31,7 @@ EXPLANATION = (
   " (TAB-compute-order) as in C13;"
   " (NUL, arithmetic) as in C11;"
   ' (FRESH) a model element pushed inside a loop is constructed inside that loop, so no iteration pushes an element that already has a parent; (INV-ruby) in the WebVTT cue parser the cursor is a Ruby only while both ruby containers are set; (NONZERO) frame and tick rates reaching the time-expression parser are positive;'
+  ' (RAISE-interval) the cue serialisers refuse end <= begin, so add_isd passes an interval on only after a test on the rounded end and begin has excluded an interval that is empty at millisecond resolution (an interval shorter than the time-code resolution is skipped, never an exception);'
 )
 RULE_TEXT = "per function / class / dereference / extraction site / raise statement"
 UNDECIDED = ["termination", "RecursionError (input-depth recursion exists in from_xml, dfs_iterator, _process_element)", "TypeError / AssertionError guarded by data-dependent invariants",
@@ -284,4 +285,6 @@ def run(ctx):
     return any(_m.is_none_test(p_, lambda e: unparse(e) in ("self.ruby_rbc", "self.ruby_rtc")) is False for p_ in parts)
   nfr = forbid.check_forbidden_receivers(ctx, ctx.ix.cls("ttconv.vtt.reader:_TextCueParser"), implications={"Ruby": _no_ruby_open} if RUBY_INV_OK[0] else None) + forbid.check_forbidden_receivers(ctx, ctx.ix.cls("ttconv.srt.reader:_TextParser"))
   ctx.floor("RAISE-guard", "calls on the parsers' cursor of methods that always raise for a class the cursor can hold", nfr, 1)
+  for prod, ref in (("ttconv.srt.writer:SrtContext.add_isd", "ttconv.srt.paragraph:SrtParagraph.to_string"), ("ttconv.vtt.writer:VttContext.add_isd", "ttconv.vtt.cue:VttCue.to_string")):
+    shape.check_interval_resolution(ctx, ctx.ix.func(prod), ctx.ix.func(ref))
   common.check_history_independence(ctx, MODS)
